@@ -323,8 +323,15 @@ def result_calc():
         "self.STD = None if self.ALL is None else np.std(self.ALL) if self.ALL else empty_list_std",     # normalised spelling
         "self.ALL: list[float] | None = value_list",
     ]
+    # the same statistics taken of the list converted to an array once (np.average / np.std convert their argument the same way;
+    # `values is None` iff the list is None, `n_values == 0` iff it is empty)
+    once = {need[1]: "self.AVG = None if values is None else np.average(values)",
+            need[2]: "self.STD = None if values is None else empty_list_std if n_values == 0 else np.std(values)"}
+    hoisted = "values = None if value_list is None else np.asanyarray(value_list)" in src \
+        and "n_values = 0 if value_list is None else len(value_list)" in src \
+        and sum(1 for x in ast.walk(f) if isinstance(x, ast.Name) and x.id in ("values", "n_values") and isinstance(x.ctx, ast.Store)) == 2
     for n in need:
-        if n not in src:
+        if n not in src and not (hoisted and n in once and once[n] in src):
             raise Refuse("Evaluation_List_Metric: missing `" + n.split("\n")[0] + "`")
     out.append("Definition gen_list_metric_shape : bool := true.")
     return "\n".join(out) + "\n"
